@@ -488,7 +488,7 @@ theorem LInv_exit {lim : String → Nat} {s : St} {k : Nat} (h : Inv s) (hl : LI
       exact ⟨l1, fun hlt => by have := l2 hlt; simp only []; omega⟩
     · rw [exit_none s k [] (by intro c' hc'; rw [hc] at hc'; cases hc'; simpa using hlv)]; exact hl
 
-theorem LInv_applyInstr {lim : String → Nat} {s : St} (peer : Nat) (i : Instr) (h : Inv s) (hl : LInv lim s)
+theorem LInv_applyInstr {lim : String → Nat} {s : St} (peer : Nat) (i : Instr) (_h : Inv s) (hl : LInv lim s)
     (hi : match i with | .sched uid _ ms _ _ _ => ms = lim uid | .cancel _ => True) :
     LInv lim (applyInstr s peer i).1 := by
   cases i with
